@@ -369,8 +369,8 @@ def op_swap(w, s):
     if not w.live_ok(s["a"]):
         return "skipped"
     e = w.h[s["a"]]
-    if e.kind != "mpo" or not e.meta.get("symbolic"):
-        return "skipped"
+    if e.kind != "mpo" or not e.meta.get("symbolic") or not nonzero(e):
+        return "skipped"     # (an operator whose terms cancel to rounding noise has no value to preserve)
     n = len(e.obj)
     i = s["i"]
     if not (0 <= i < n - 1):
@@ -494,6 +494,8 @@ def op_add(w, s):
     if len(ea.obj) < 2 or not np.all(np.asarray(ea.obj.qntot) == np.asarray(eb.obj.qntot)):
         return "skipped"
     sign = -1.0 if s.get("sub") else 1.0
+    if s.get("sub") and not site_tensors_nonzero(eb.obj):
+        return "skipped"     # a - b negates b with scale(), which refuses (asserts) an operand whose centre tensor vanishes: zero objects are not operands
     res = (ea.obj - eb.obj) if s.get("sub") else (ea.obj + eb.obj)
     ref = ea.shadow + sign * eb.shadow
     scale = float(np.linalg.norm(ea.shadow.ravel()) + np.linalg.norm(eb.shadow.ravel()))
@@ -1649,14 +1651,14 @@ def op_observe2(w, s):
                 continue
             if got.shape != want.shape:
                 raise V({"C07"}, "C07.expectations.shape", f"{name} path returned shape {got.shape} for {len(ops)} operators")
-            if not np.iscomplexobj(got) and float(np.abs(want.imag).max()) <= 1.0001e-8:
-                # documented: a real result is returned when the imaginary parts are negligible (numpy allclose, atol 1e-8)
-                err = float(np.abs(got - want.real).max())
-            else:
-                err = float(np.abs(got - want).max())
+            # documented: a real number is returned for an entry whose imaginary part is negligible (numpy allclose, atol 1e-8);
+            # the one-by-one path decides that per entry
+            d_full = np.abs(got - want)
+            d_real = np.where(np.abs(want.imag) <= 1.0001e-8, np.abs(got - want.real), np.inf)
+            err = float(np.minimum(d_full, d_real).max())
             w.stats.ratio("C07.expectations", err, 1e-9 * max(sc, 1e-300))
             if err > 1e-9 * max(sc, 1e-300):
-                k = int(np.argmax(np.abs(got - want)))
+                k = int(np.argmax(np.minimum(d_full, d_real)))
                 raise V({"C07"}, f"C07.expectations.{name}", f"expectations({name} path, {len(ops)} operators, hashbits={hashbits}): entry {k} is {got[k]!r}, dense {want[k]!r}",
                         sig=f"C07.expectations.{name}")
         if fast is not None:
